@@ -1075,9 +1075,61 @@ impl Visitor<Diagnostic> for LibraryRenderer {
         self.write_ws(":");
         self.visit_id(&node.type_name)?;
 
+        let num_elements = node.sources.len() + node.sinks.len() + node.fb_tasks.len();
+        if num_elements > 0 {
+            let mut remaining = num_elements;
+            self.write_ws("(");
+            for source in node.sources.iter() {
+                self.visit_symbolic_variable_kind(&source.dst)?;
+                self.write_ws(":=");
+                self.visit_program_connection_source_kind(&source.src)?;
+                remaining -= 1;
+                if remaining > 0 {
+                    self.write_ws(",");
+                }
+            }
+            for sink in node.sinks.iter() {
+                self.visit_symbolic_variable_kind(&sink.src)?;
+                self.write_ws("=>");
+                self.visit_program_connection_sink_kind(&sink.dst)?;
+                remaining -= 1;
+                if remaining > 0 {
+                    self.write_ws(",");
+                }
+            }
+            for fb_task in node.fb_tasks.iter() {
+                self.visit_id(&fb_task.fb_name)?;
+                self.write_ws("WITH");
+                self.visit_id(&fb_task.task_name)?;
+                remaining -= 1;
+                if remaining > 0 {
+                    self.write_ws(",");
+                }
+            }
+            self.write_ws(")");
+        }
+
         self.write_ws(";");
         self.newline();
 
+        Ok(())
+    }
+
+    fn visit_global_var_reference(
+        &mut self,
+        node: &dsl::configuration::GlobalVarReference,
+    ) -> Result<Self::Value, Diagnostic> {
+        let mut val = String::new();
+        if let Some(resource_name) = &node.resource_name {
+            val.push_str(resource_name.original());
+            val.push('.');
+        }
+        val.push_str(node.global_var_name.original());
+        if let Some(element_name) = &node.structure_element_name {
+            val.push('.');
+            val.push_str(element_name.original());
+        }
+        self.write_ws(val.as_str());
         Ok(())
     }
 
